@@ -120,10 +120,18 @@ class Weaver:
                 txt = self.printer().global_var(v, cname)
                 out.append('/* generated from global %s */' % toks[1]); out.append(txt); i += 1
                 self.meta['functions'].append(dict(qual='global ' + toks[1], cname=cname or toks[1], tu=self.tu.path, sha=ast2c.sha(txt), loops=0))
-            elif cmd == 'function':
-                m = re.match(r'^//@function\s+(.*?)\s+as\s+(\w+)\s*$', l)
-                if not m: raise ExtractionBreak('bad marker: ' + l)
-                qual, cname = m.group(1), m.group(2)
+            elif cmd in ('function', 'fragment'):
+                # //@fragment <signature> path=<i/then|else|body/...> as <C name>: ONE statement of the function printed as a
+                # C function of its own (free variables become parameters); the claim is about that statement only
+                fpath = None
+                if cmd == 'fragment':
+                    m = re.match(r'^//@fragment\s+(.*?)\s+path=(\S+)\s+as\s+(\w+)\s*$', l)
+                    if not m: raise ExtractionBreak('bad marker: ' + l)
+                    qual, fpath, cname = m.group(1), m.group(2), m.group(3)
+                else:
+                    m = re.match(r'^//@function\s+(.*?)\s+as\s+(\w+)\s*$', l)
+                    if not m: raise ExtractionBreak('bad marker: ' + l)
+                    qual, cname = m.group(1), m.group(2)
                 contract = []; loops = {}; cur = None
                 i += 1
                 while i < len(lines) and not lines[i].startswith('//@end'):
@@ -137,7 +145,11 @@ class Weaver:
                 i += 1
                 fn = self.tu.find_function(qual)
                 p = self.printer()
-                txt, info = p.function(fn, cname, '\n'.join(contract), {k: '\n'.join(v) for k, v in loops.items()})
+                if fpath is not None:
+                    txt, info = p.fragment(fn, fpath, cname, '\n'.join(contract), {k: '\n'.join(v) for k, v in loops.items()})
+                    qual = qual + ' [statement ' + fpath + ']'
+                else:
+                    txt, info = p.function(fn, cname, '\n'.join(contract), {k: '\n'.join(v) for k, v in loops.items()})
                 loc = fn.get('loc', {}); rng = fn.get('range', {})
                 out.append('/* generated from %s (%s) */' % (qual, self.tu.path)); out.append(txt)
                 self.meta['functions'].append(dict(qual=qual, cname=cname, tu=self.tu.path, sha=ast2c.sha(txt),
